@@ -60,7 +60,9 @@ func init() {
 			"textenc = prefix x body encoding x suffix grammar of textual quotes (0x, BOM, '#', white space, separators, line breaks, padding; bodies from nothing to a genuine quote); efifile = UEFI variable files of 0..5 bytes / degenerate data behind a variable locator; " +
 			"optmatrix = the full cross product of the caller's options of SevPolicy, TdxPolicy, verify.Endorsement, verify.SNPValidateFunc, SevValidate, TdxValidate, extract.Endorsement (nil / empty / filled sub-options, every boolean with every other, zero / named / unendorsed counts, absent / failing collaborators) over the genuine endorsement, every signed golden variant and broken ones; " +
 			"session = one set of long-lived values (decode receivers, validator closures, options values, getter, variable reader, a receive buffer refilled in place) serving a sequence of inputs of one kind, with the same input twice in a row and again after another one, and receivers refilled with growing and shrinking arrays; " +
-			"concurrent = 8 goroutines starting the same entry point together, each on its own inputs (half of them fresh well-formed objects in every call) with its own receivers and collaborators, judged for panics (recovered per goroutine), fatal runtime errors, the batch allocation budget and non-termination. Monitor: core.Guard per call: panic, thread CPU > 2 s + 1 s/MiB, allocated bytes > 64 MiB + 4096*len(input); " +
+			"concurrent = 8 goroutines starting the same entry point together, each on its own inputs (half of them fresh well-formed objects in every call) with its own receivers and collaborators, judged for panics (recovered per goroutine), fatal runtime errors, the batch allocation budget and non-termination; " +
+			"amplify = well-formed encoded containers of high expansion ratio (gzip, zlib, raw DEFLATE, LZW in both bit orders, bzip2, a zip archive; decoding to 64 KiB .. 128 MiB (192 MiB thorough) of zeros, 0xff, the genuine endorsement once / repeated / followed by a huge unknown field, a genuine quote or event log; gzip also with forged ISIZE, flipped CRC, cut trailer, 16 members, all optional header fields, nested twice), each verified by the harness's own constant-memory decoder, " +
+			"as the bytes themselves (cross-fed to all entry points), as the GCE entry of the certificate table (attestation proto extras, TPM wrapper, raw report + table, table alone, base64 text), as raw RIM locator of an event log, and served by the Getter / a UEFI variable file / a raw locator to extraction followed by verify.Endorsement; every call is paired with a control twin (same entry point, options and position; the same container holding PRNG bytes stored uncompressed, never shorter than the stream) and rule `amplification` fires when the call allocated more than 64 MiB + 64 x max(input size, allocation of the control twin's call). Monitor: core.Guard per call: panic, thread CPU > 2 s + 1 s/MiB, allocated bytes > 64 MiB + 4096*len(input); " +
 			"process-fatal failures (out of memory under ulimit -v 6 GiB, stack overflow) are attributed by the supervisor to the case logged before the call. " +
 			"non-trivial = a call on a non-genuine input that returned; distinct cells = (seed, operator class, entry point, returned ok|error)",
 		Assumptions: []string{
@@ -73,6 +75,7 @@ func init() {
 			"InspectMask is exercised with a fixed list of well-formed field paths; hostile paths belong to C19",
 			"state kept by the caller between calls (a refilled receiver, a long-lived validator closure or options value) and calls of other goroutines are part of 'every function ... returns a value or an error for every byte string': the property does not restrict the process in which the function is applied; only totality is judged there (results under concurrency are C09's, codec results on reused receivers C18's)",
 			"the caller's options are not untrusted, but totality has to hold under every option combination the API accepts; nil *options pointers*, a nil context and a nil TerminalWriter are API misuse and are not produced; extract.Options without a UEFIVariableReader is produced, observed and not judged (see judgeNilVariableReader)",
+			"amplify family: 'in proportion to the size of its input' is read as: two inputs of the same size in the same position under the same options cost about the same; the call on a high-ratio container may allocate 64 MiB + 64 x max(its input size, what the control twin needed) (the unchanged tree needs at most 33 bytes per input byte over all families, see alloc_b/* maxima); the general budget (64 MiB + 4096 B/B) applies to these calls as to all others",
 			"the event-signature dictionary is extended with the 16-byte constants of <tree under test>/eventlog and /extract/eventlog (the replace target recorded in the worker's build info), so the case list is a function of (seed, tier, tree); when the sources cannot be read only the specification's signatures are used (see notes)",
 		},
 		ShardsQuick: 16, ShardsThor: 16, TimeoutS: 600, TimeoutThor: 3000, UlimitVKB: ulimitVKiB, Run: run,
